@@ -4,10 +4,12 @@
 -/
 import Driver.Util
 import Driver.Handlers.Dates
+import Driver.Handlers.DateParse
+import Driver.Handlers.Decoder
 namespace Driver
 
 def handlers : List (String → List String → Option String) :=
-  [handleDates]
+  [handleDates, handleDateParse, handleDecoder]
 
 def respond (line : String) : String :=
   match line.splitOn " " with
